@@ -66,6 +66,18 @@ ChannelBounds(r, h, pos, lo, hi) ==
         up == IF above = {} THEN BIG ELSE CHOOSE x \in above : \A y \in above : x <= y
         dn == IF below = {} THEN -BIG ELSE CHOOSE x \in below : \A y \in below : x >= y
     IN  <<dn, up>>
+\* a checkpoint on a segment ADJOINING the movable segment u limits how far u may move towards the far end of that adjoining segment
+\* (moving further would shorten the adjoining segment past the checkpoint): <<lower limit, upper limit>> of u's position
+CpLimits(r, u) ==
+    LET D == Simplify(r.conns[u.c].disp)
+        Across(p) == IF u.h THEN p[2] ELSE p[1]
+        cps == r.conns[u.c].cps
+        adj == (IF u.i > 1 THEN {<<D[u.i - 1], D[u.i]>>} ELSE {}) \cup (IF u.i + 2 <= Len(D) THEN {<<D[u.i + 2], D[u.i + 1]>>} ELSE {})     \* <<far end, bend>>
+        ups == {Across(cps[q]) : q \in {q \in DOMAIN cps : \E a \in adj : OnSegT(a[1], a[2], cps[q]) /\ Across(a[1]) > u.pos + TOL}}
+        dns == {Across(cps[q]) : q \in {q \in DOMAIN cps : \E a \in adj : OnSegT(a[1], a[2], cps[q]) /\ Across(a[1]) < u.pos - TOL}}
+    IN  <<IF dns = {} THEN -BIG ELSE CHOOSE x \in dns : \A y \in dns : x >= y, IF ups = {} THEN BIG ELSE CHOOSE x \in ups : \A y \in ups : x <= y>>
+\* free interval of a movable segment: between the nearest immovable things, and not past a checkpoint of an adjoining segment
+FreeOf(r, u) == LET b == ChannelBounds(r, u.h, u.pos, u.lo, u.hi)  c == CpLimits(r, u) IN <<Mx(b[1], c[1]), Mn(b[2], c[2])>>
 Tags(r) ==
     IF r.thrown THEN {"exception"} ELSE
     LET S == Segs(r)
@@ -90,7 +102,7 @@ Tags(r) ==
                                   \* the segments sharing this stretch; a segment moves as a whole, so each has the free interval of its
                                   \* own whole extent, and the channel they run in together is what those intervals have in common
                                   G == {u \in S : u.h = s.h /\ u.interior /\ Abs(u.pos - s.pos) <= TOL /\ Mn(u.hi, hi) - Mx(u.lo, lo) > 2 * TOL}
-                                  B == [u \in G |-> ChannelBounds(r, u.h, u.pos, u.lo, u.hi)]
+                                  B == [u \in G |-> FreeOf(r, u)]
                                   up == CHOOSE x \in {B[u][2] : u \in G} : \A y \in {B[u][2] : u \in G} : x <= y
                                   dn == CHOOSE x \in {B[u][1] : u \in G} : \A y \in {B[u][1] : u \in G} : x >= y
                               IN  up - dn >= Cardinality(G) * r.d + r.d
@@ -105,7 +117,7 @@ Tags(r) ==
                   WideF(p) == LET s == p[1] t == p[2]
                                    lo == Mx(s.lo, t.lo)  hi == Mn(s.hi, t.hi)
                                    M == {u \in S : u.h = s.h /\ u.interior /\ Abs(u.pos - s.pos) <= TOL /\ Mn(u.hi, hi) - Mx(u.lo, lo) > 2 * TOL}
-                                   B == [u \in M |-> ChannelBounds(r, u.h, u.pos, u.lo, u.hi)]
+                                   B == [u \in M |-> FreeOf(r, u)]
                                    up == CHOOSE x \in {B[u][2] : u \in M} : \A y \in {B[u][2] : u \in M} : x <= y
                                    dn == CHOOSE x \in {B[u][1] : u \in M} : \A y \in {B[u][1] : u \in M} : x >= y
                                    need == Cardinality(M) * r.d + r.d
